@@ -84,6 +84,12 @@ func c17StringCalls() []c17Call {
 		mkTest("Not().HasPrefix(a)", "prefix", "prefix", "a", true, func(v string) bool { return strings.HasPrefix(v, "a") }, func(s *z.StringSchema[string], o ...z.TestOption) *z.StringSchema[string] { return s.Not().HasPrefix("a", o...) }),
 		mkTest("Not().ContainsDigit", "contains_digit", "", nil, true, hasDigit, func(s *z.StringSchema[string], o ...z.TestOption) *z.StringSchema[string] { return s.Not().ContainsDigit(o...) }),
 		mkTest("Not().Contains(b)", "contained", "contained", "b", true, func(v string) bool { return strings.Contains(v, "b") }, func(s *z.StringSchema[string], o ...z.TestOption) *z.StringSchema[string] { return s.Not().Contains("b", o...) }),
+		mkTest("Contains(\"\")", "contained", "contained", "", false, func(v string) bool { return true }, func(s *z.StringSchema[string], o ...z.TestOption) *z.StringSchema[string] { return s.Contains("", o...) }),
+		mkTest("Not().Contains(\"\")", "contained", "contained", "", true, func(v string) bool { return true }, func(s *z.StringSchema[string], o ...z.TestOption) *z.StringSchema[string] { return s.Not().Contains("", o...) }),
+		mkTest("Not().HasPrefix(\"\")", "prefix", "prefix", "", true, func(v string) bool { return true }, func(s *z.StringSchema[string], o ...z.TestOption) *z.StringSchema[string] { return s.Not().HasPrefix("", o...) }),
+		mkTest("Min(0)", "min", "min", 0, false, func(v string) bool { return true }, func(s *z.StringSchema[string], o ...z.TestOption) *z.StringSchema[string] { return s.Min(0, o...) }),
+		mkTest("Not().Len(0)", "len", "len", 0, true, func(v string) bool { return len(v) == 0 }, func(s *z.StringSchema[string], o ...z.TestOption) *z.StringSchema[string] { return s.Not().Len(0, o...) }),
+		mkTest("Not().OneOf([])", "one_of_options", "one_of_options", []string{}, true, func(v string) bool { return false }, func(s *z.StringSchema[string], o ...z.TestOption) *z.StringSchema[string] { return s.Not().OneOf([]string{}, o...) }),
 		{name: "TestFunc(noZ)", hasOpt: true, apply: func(s *z.StringSchema[string], m *c17StrModel, opt int) *z.StringSchema[string] {
 			t := c17Test{code: "", pred: func(v string) bool { return !strings.Contains(v, "z") }}
 			opts := c17Opt(len(m.tests), opt, &t)
@@ -524,7 +530,7 @@ func c17Len(tier string) int {
 func init() {
 	Register(&Prop{
 		ID:    "C17",
-		Rule:  "one execution = one chain of ≤L builder calls on z.String() from {Min, Max, Len, HasPrefix, ContainsDigit, Not().Len, Not().HasPrefix, Not().ContainsDigit, Not().Contains, TestFunc} × option {none, Message, IssueCode, IssuePath, Params} and {Required, Required(Message), Optional, Default ×2, Catch ×2}, built through the real API and run on 7 subjects in both modes against a list-based model of what each call means; plus Int chains (tests × options, modifiers), plus one schema object at two places (two fields, field + slice element, field + behind pointer) vs independent copies, plus WithCoercer locality (own schema; through Ptr); every chain is non-trivial; distinct = distinct chains",
+		Rule:  "one execution = one chain of ≤L builder calls on z.String() from {Min, Max, Len, HasPrefix, ContainsDigit, Not().Len, Not().HasPrefix, Not().ContainsDigit, Not().Contains, degenerate parameters Contains(empty), Not().Contains(empty), Not().HasPrefix(empty), Min(0), Not().Len(0), Not().OneOf(empty list), TestFunc} × option {none, Message, IssueCode, IssuePath, Params} and {Required, Required(Message), Optional, Default ×2, Catch ×2}, built through the real API and run on 7 subjects in both modes against a list-based model of what each call means; plus Int chains (tests × options, modifiers), plus one schema object at two places (two fields, field + slice element, field + behind pointer) vs independent copies, plus WithCoercer locality (own schema; through Ptr); every chain is non-trivial; distinct = distinct chains",
 		Floor: 50,
 		Bound: func(tier string) string { return fmt.Sprintf("all String chains of length ≤%d, all Int chains of length ≤3", c17Len(tier)) },
 		Assumptions: []string{"Not() is followed only by the methods of the interface it returns (what the type system permits)", "messages are compared only where a Message option was given"},
